@@ -272,3 +272,8 @@ def run(ctx):
     from .. import spaces as _spc
 
     _spc.paired_defaults(ctx)  # RWG / SNC and BC / RBC are built from the same options under the same keywords
+    from .. import bcfan as _bcf
+    from . import c10 as _c10n
+
+    _c10n.local_numbering_tables(ctx)  # (tools/wiring.py) the BC / RBC coefficients and the dual-space tables on the barycentric grid are anchored here too
+    _bcf.fan_bundles(ctx)
